@@ -46,7 +46,9 @@ pub trait HttpDistance {
             let obs_header = &observed[obs_idx];
             let sig_header = &signature[sig_idx];
 
-            if obs_header.name == sig_header.name && obs_header.value == sig_header.value {
+            if obs_header.name == sig_header.name
+                && (sig_header.value.is_none() || obs_header.value == sig_header.value)
+            {
                 obs_idx = obs_idx.saturating_add(1);
                 sig_idx = sig_idx.saturating_add(1);
             } else if obs_header.name == sig_header.name {
